@@ -277,6 +277,13 @@ def check(ctx):
            clause="cbind keeping the first of duplicate names")
     dfs = [n for n in body_nodes(cb.node) if isinstance(n, ast.Assign) and pmatch(f"[{cb.params[0]}] + list({cb.vararg})", n.value) is not None]
     ok = len(dfs) == 1
+    if not ok:
+        # the same sequence written as a display: for data in (self, *others) / [self, *others]
+        seqs = [n for n in body_nodes(cb.node) if isinstance(n, (ast.Tuple, ast.List)) and len(n.elts) == 2
+                and norm(n.elts[0]) == cb.params[0] and isinstance(n.elts[1], ast.Starred) and norm(n.elts[1].value) == cb.vararg]
+        if len(seqs) == 1:
+            ok = True
+            dfs = [seqs[0]]
     ctx.ob("DUP", cb, norm(dfs[0]) if dfs else "data_frames", dfs[0] if dfs else cb.node, ok, "receiver first, then the arguments in order" if ok else
            "cbind does not iterate [self] + list(others)", nontrivial=False)
     up = repo.fn(f"{DF}.update")
